@@ -19,7 +19,7 @@ pub fn def() -> PropDef {
     gen,
     check,
     panic_policy: PanicPolicy::Count,
-    rule: "random ASCII source trees with consistent leaf maps (depth <=3 quick / <=5 thorough), replacement sets biased to deleting/inserting line breaks at column 0 and >0, overlaps, positions beyond the end; non-trivial = a composite (Concat >=2 children or Replace with >=1 op) and >=2 chunks whose reported position was compared with the scanned position on a line > 1 or column > 0; distinct = spec fingerprint",
+    rule: "random ASCII source trees with consistent leaf maps (depth <=3 quick / <=5 thorough), replacement sets biased to deleting/inserting line breaks at column 0 and >0, overlaps, positions beyond the end; non-trivial = a composite (Concat >=2 children or Replace with >=1 op) and >=2 chunks whose reported position was compared with the scanned position on a line > 1 or column > 0; trees repeat an earlier sibling now and then and, in every second case, equal Cached nodes of the tree under test are one shared instance / clones sharing one cache; distinct = spec fingerprint",
     cases: |t| match t {
       Tier::Quick => 200_000,
       Tier::Thorough => 3_000_000,
